@@ -10,6 +10,26 @@ def named(dump):
             out[e["name"]] = (k, e)
     return out
 
+def reachable(dump, tid, fuel=400):
+    """ids of the entries reachable from `tid` (members, variants, items, keys, wrappers)"""
+    es = entries(dump); seen = set(); work = [tid]
+    while work and fuel > 0:
+        i = work.pop(); fuel -= 1
+        if i in seen or i not in es: continue
+        seen.add(i); e = es[i]
+        for k in ("type_id", "id", "key", "value"):
+            if isinstance(e.get(k), int): work.append(e[k])
+        for p in e.get("props") or []: work.append(p["type_id"])
+        for v in e.get("variants") or []:
+            dt = v["details"]
+            if isinstance(dt, dict):
+                if "item" in dt: work.append(dt["item"])
+                work += list(dt.get("tuple") or [])
+                work += [p["type_id"] for p in dt.get("struct") or []]
+        work += [x for x in (e.get("ids") or []) if isinstance(x, int)]
+        work += [x for x in (e.get("parameters") or []) if isinstance(x, int)]
+    return seen
+
 def is_simple_enum(e):
     return e["kind"] == "enum" and e["tag"] == "external" and e["variants"] and \
         all(v["details"] == "simple" for v in e["variants"]) and "AllSimpleVariants" in e["bespoke"]
